@@ -293,17 +293,23 @@ def check(prog, run):
                                "the filter `%s` does not keep a member iff it is not deprecated or includeDeprecated is set" % txt)
 
     # ---- T5 meta resolvers do not raise library errors
-    r = run.rule("T5", "resolver lambdas of the introspection types and meta fields call nothing that explicitly raises a library "
+    r = run.rule("T5", "resolvers (lambdas or module functions) of the introspection types and meta fields call nothing that explicitly raises a library "
                        "error (an unknown name must yield null, not an exception that aborts the query)", 1)
     mr = excflow.MayRaise(prog)
-    guard_ok = {"get_possible_types": "guarded by isinstance(type_, GraphQLAbstractType) in the same lambda"}
+    guard_ok = {"get_possible_types": "guarded by isinstance(type_, GraphQLAbstractType) in the same resolver"}
     holder = prog.get_func(INTRO, "_resolve_type_kind")
     for name, exprs in m.assigns.items():
         for e in exprs:
             for n in ast.walk(e):
-                if isinstance(n, ast.keyword) and n.arg == "resolver" and isinstance(n.value, ast.Lambda):
-                    lam = n.value
-                    for c in ast.walk(lam.body):
+                if isinstance(n, ast.keyword) and n.arg == "resolver" and isinstance(n.value, (ast.Lambda, ast.Name)):
+                    if isinstance(n.value, ast.Lambda):
+                        lam_body = n.value.body
+                    else:
+                        rr = prog.resolve_name(m, n.value.id)
+                        if not (rr and rr[0] == "func" and rr[1].module is m):
+                            continue
+                        lam_body = rr[1].node      # a resolver written as a module-level function
+                    for c in ast.walk(lam_body):
                         if isinstance(c, ast.Call) and isinstance(c.func, ast.Attribute):
                             cands = prog.methods_named(c.func.attr)
                             if not cands or c.func.attr in excflow.GENERIC_NAMES:
@@ -316,6 +322,12 @@ def check(prog, run):
                                     run.report(r, "%s:%s:resolver-raises(%s:%s)" % (INTRO, name, cand.qualname, ",".join(lib)), "src/py_gql/schema/introspection.py:%d" % c.lineno,
                                                "the %s resolver calls %s, which raises %s (not a ResolverError): e.g. `{ __type(name: \"Nope\") { name } }` "
                                                "aborts the whole query instead of returning null" % (name, cand.qualname, lib))
+
+    # ---- T8 reporting the schema does not change it
+    from .. import aliasmut
+    aliasmut.check(prog, run, "T8", ["py_gql.schema.introspection"], 0,
+                   "an introspection request would reorder or change the schema it reports (and fail outright on a tuple of members)",
+                   getters=True)
 
     # ---- T6 introspection reads the live schema (no memoisation across calls)
     r = run.rule("T6", "nothing in schema/introspection.py remembers an answer across calls: no function carries a caching decorator "
